@@ -47,6 +47,8 @@ def main():
         env = {'PYTHONPATH': wt}
         rc, out = sh('/venv/bin/python %s' % demo, cwd=wt, env=env, timeout=900)
         res['demo_clean_rc'] = rc
+        base_names, base_summary = passed_tests(wt)
+        res['clean_tests_summary'] = base_summary
         rc, out = sh('git -C %s apply %s' % (wt, patch))
         res['patch_applies'] = (rc == 0)
         if rc != 0:
@@ -59,9 +61,10 @@ def main():
         res['demo_patched_tail'] = out.strip().splitlines()[-2:] if out.strip() else []
         names, summary = passed_tests(wt)
         res['tests_summary'] = summary
-        res['tests_same_37'] = (names == STABLE)
-        if names != STABLE:
-            res['tests_diff'] = {'lost': sorted(STABLE - names), 'gained': sorted(names - STABLE)}
+        # the same tests pass as on the clean tree (which contain the 37 pinned ones)
+        res['tests_same_37'] = (names == base_names and STABLE <= names)
+        if names != base_names:
+            res['tests_diff'] = {'lost': sorted(base_names - names), 'gained': sorted(names - base_names)}
         hits = {}
         for pid in CLAIMED:
             rc, out = sh('/venv/bin/python -m pytough_sa check %s --root %s --no-write' % (pid, wt), cwd=VERIF)
